@@ -81,11 +81,8 @@ def check(prog, res, tier):
     want = {'_C_EFF_TIMESTAMP': (0, 7), '_C_ACTIVE_INACTIVE_CODE': (7, 8), '_C_TABLE_SUB_ID': (8, 11),
             '_X_EFF_TIMESTAMP': (0, 10), '_X_ACTIVE_INACTIVE_CODE': (10, 11), '_X_TABLE_ID': (11, 19)}
     got = {k: consts.get(k) for k in want}
-    gfi = ci.lookup('_get_param_field')[1]
-    offs = [n.value.operand.value * -1 if isinstance(n.value, ast.UnaryOp) else n.value.value
-            for n in ast.walk(gfi.node) if isinstance(n, ast.Assign) and len(n.targets) == 1 and isinstance(n.targets[0], ast.Name)
-            and n.targets[0].id == 'field_offset' and (isinstance(n.value, ast.Constant) or
-                                                       (isinstance(n.value, ast.UnaryOp) and isinstance(n.value.operand, ast.Constant)))]
+    gl = ci.lookup('_get_param_field')
+    gfi = gl[1] if gl is not None and gl[0] == 'method' else None     # private helper: analysed on its own when it exists
     if any(v is None for v in got.values()):
         # constants renamed / computed: the offsets are decided semantically by C18.b and C18.c
         ob.verdict, ob.detail = PROVED, 'header slice constants are not literal slices any more; offsets are decided semantically (C18.b, C18.c)'
@@ -99,7 +96,7 @@ def check(prog, res, tier):
     res.add(ob)
 
     # ---- C18.b column slicing (semantic)
-    for expanded in (False, True):
+    for expanded in ((False, True) if gfi is not None else ()):
         tag = 'expanded' if expanded else 'compressed'
 
         def entry_g(it, expanded=expanded):
@@ -150,6 +147,7 @@ def check(prog, res, tier):
         def vbs_next(it, fi, args, kwargs, node, self_obj):
             c = it.choose(2, 'next record / end of data')
             if c == 1:
+                it.user['end_of_data'] = True
                 raise __import__('cardverif.signals', fromlist=['Raised']).Raised(ExcV(StopIteration, [], node=node, stack=it.stack))
             r = it.sym_bytes('row', lo=300, tags=WIRE)
             it.user.setdefault('rows', []).append(r)
@@ -164,12 +162,55 @@ def check(prog, res, tier):
             obj = make_reader(it, prog, expanded)
             return it.call_function(nfi, [], {}, self_obj=obj)
         runs_n = Runs(prog, entry_n, summaries={'mciipm.VbsReader.__next__': vbs_next, f'{CLS}._get_param_field': gsum}, res=res)
+        runs_full = Runs(prog, entry_n, summaries={'mciipm.VbsReader.__next__': vbs_next}, res=res)
+
+        def chk_full(p, mode, expanded=expanded):
+            """every value stored under a configured column name is row[start+off:end+off] in the reader's codec"""
+            it = p.interp
+            st = p.store
+            rows = it.user.get('rows', [])
+            if not rows:
+                return []
+            cols = it.user.get('cols', [])
+            off = 0 if expanded else -8
+            fails = []
+            for e in p.events:
+                if e.kind != 'setitem' or not e.under(nfi.short):
+                    continue
+                key = it.resolve(e.data['key'])
+                col = next((c for k, c in cols if k is key or (isinstance(k, SeqV) and isinstance(key, SeqV) and repr(k) == repr(key))), None)
+                if col is None:
+                    continue
+                v = it.resolve(e.data['value'])
+                row = rows[-1].segs[0].src
+                s_, e_ = col.items['start'].lin, col.items['end'].lin
+                if not (isinstance(v, SeqV) and v.kind == 'str' and len(v.segs) <= 1):
+                    fails.append(definite(f'{tag} row: column value is {v!r}', e.node))
+                    continue
+                if v.segs:
+                    g = v.segs[0]
+                    if not (isinstance(g, Sl) and g.src is row):
+                        fails.append(definite(f'{tag} row: column value {g!r} is not a slice of the row', e.node))
+                        continue
+                    fails += need_eq0(st, g.lo - s_ - off, f'{tag} row: a column is read from offset {st.canon(g.lo)}, its configured '
+                                                          f'start is {st.canon(s_)} (header offset {off})', e.node)
+                    if st.decide_eq0(g.hi - row.length) is not True:
+                        fails += need_eq0(st, g.hi - e_ - off, f'{tag} row: a column is read up to {st.canon(g.hi)}, its configured '
+                                                              f'end is {st.canon(e_)} (header offset {off})', e.node)
+                c = getattr(v, 'codec', None)
+                if c is not it.user['enc']:
+                    fails.append(definite(f'column text is decoded with {c!r}, not the reader\'s encoding', e.node))
+            return fails
+        res.add(runs_full.judge('C18.b', f'{tag} rows read through __next__: every configured column comes back as '
+                                         f'record[start+off:end+off] decoded with the reader\'s encoding (off = {"0" if expanded else "-8"})',
+                                func_where(nfi), "record_dict[field] = record[start + field_offset:end + field_offset].decode(...)",
+                                chk_full, rule=f'C18.b.next.{tag}'))
 
         def chk_n(p, mode, expanded=expanded):
             if p.outcome != 'return':
                 if p.outcome == 'raise' and exc_key(p.value.cls) not in (STOP, MLIB):
                     return [definite(f'__next__ raises {p.value!r}')]
-                if p.outcome == 'raise' and exc_key(p.value.cls) == STOP and p.value.raise_node is not None:
+                if p.outcome == 'raise' and exc_key(p.value.cls) == STOP and not p.interp.user.get('end_of_data'):
                     return [definite('the parameter reader ends the iteration by itself although the underlying reader has more '
                                      'records: later rows of the requested table are dropped', p.value.raise_node)]
                 return []
@@ -230,8 +271,10 @@ def check(prog, res, tier):
                 if len(sets) != 1:
                     fails.append(definite(f'{len(sets)} values stored per configured column', head.node))
                     continue
-                if sets[0].data['key'] is not col:
-                    fails.append(definite(f'column value stored under {sets[0].data["key"]!r}, not the column name', sets[0].node))
+                key = sets[0].data['key']
+                names = [col] + (list(col.items[:1]) if isinstance(col, TupleV) else [])
+                if not any(key is c for c in names):
+                    fails.append(definite(f'column value stored under {key!r}, not the column name', sets[0].node))
             return fails
         res.add(runs_n.judge('C18.b', f'{tag} rows: one value is stored per configured column of the table, under its name',
                              func_where(nfi), 'for field in self.param_config[record_table_id]: record_dict[field] = ...', chk_cols,
